@@ -18,7 +18,7 @@ use std::time::Duration;
 pub static INFO: PropInfo = PropInfo {
     id: "C13",
     level: "exploration",
-    rule: "three kinds of evaluation. (A) sender stress: a fresh RenetClient whose packet-sequence and message-id counters are seeded (hook) to magnitudes {0, 63, 64, 16383, 16384, 2^30-1, 2^30, 2^62-1000}, 1-3 messages of lengths 1180..1201 (and random others) per tick on random channels, while crafted valid packets with chosen sequence numbers (ascending / descending / random with gaps needing 1/2/4/8-byte varints) are fed through process_packet so that 1..>64 pending ack ranges exist; every get_packets_to_send element must be <= 1300 bytes and the endpoint must never disconnect with PacketSerialization. (B) full simulated sessions (as C01) including the scripted hold-and-release-in-descending-order link, same monitor. (C) netcode: every datagram produced by generate_payload_packet for payloads 0..1300 at session-sequence magnitudes up to 2^64-1 (crate encoder through the hook) and every handshake / keep-alive / disconnect / denied datagram of honest sessions must be <= 1400 bytes, a 1300-byte payload must never be refused, and the largest datagram under a sequence number of every width must be opened again by the crate's decoder (what may be produced has to be carried). (D) the carrier itself, one run in 50: a hand-driven netcode client against a real NetcodeServerTransport, or a hand-driven netcode server against a real NetcodeClientTransport, over loopback UDP sockets; payloads of 1228..1300 bytes that are valid message-layer packets are pushed through the socket and must come out of the message layer on the other side. Non-trivial = the execution produced at least one packet longer than 1200 bytes or an ack packet with >= 8 ranges; distinct = distinct fingerprints of (sizes, range counts).",
+    rule: "three kinds of evaluation. (A) sender stress: a fresh RenetClient whose packet-sequence and message-id counters are seeded (hook) to magnitudes {0, 63, 64, 16383, 16384, 2^30-1, 2^30, 2^62-1000}, 1-3 messages of lengths 1180..1201 (and random others) per tick on random channels, while crafted valid packets with chosen sequence numbers (ascending / descending / random with gaps needing 1/2/4/8-byte varints) are fed through process_packet so that 1..>64 pending ack ranges exist; every get_packets_to_send element must be <= 1300 bytes and the endpoint must never disconnect with PacketSerialization. (B) full simulated sessions (as C01) including the scripted hold-and-release-in-descending-order link, same monitor. (C) netcode: every datagram produced by generate_payload_packet for payloads 0..1300 at session-sequence magnitudes up to 2^64-1 (crate encoder through the hook) and every handshake / keep-alive / disconnect / denied datagram of honest sessions must be <= 1400 bytes, a 1300-byte payload must never be refused, and the largest datagram under a sequence number of every width must be opened again by the crate's decoder (what may be produced has to be carried). (D) the carrier itself, one run in 50: a hand-driven netcode client against a real NetcodeServerTransport, or a hand-driven netcode server against a real NetcodeClientTransport, over loopback UDP sockets; payloads of 1228..1300 bytes that are valid message-layer packets are pushed through the socket and must come out of the message layer on the other side. Non-trivial = the execution produced at least one packet longer than 1200 bytes or an ack packet with >= 8 ranges; distinct = distinct fingerprints of (sizes, range counts). In a third of the stress ticks (not at the seeded magnitude just below 2^62) 30-400 tiny messages (0..100 bytes) of one channel are submitted at once, so that the aggregation has to budget the varints of ids and lengths at the seeded magnitude.",
     assumptions: &["counter magnitudes are reached by the seeding hook, not by running 2^62 ticks", "netcode sequence magnitudes are exercised through the crate's encoder (the session counter itself cannot be seeded)"],
     gates: &[
         ("carrier_runs", 5),
